@@ -92,6 +92,21 @@ class _E1(ast.NodeTransformer):
                 parts.append(self.visit_Compare(ast.copy_location(ast.Compare(left=clone(left), ops=[op], comparators=[clone(right)]), n)))
                 left = right
             return self.visit_BoolOp(ast.copy_location(ast.BoolOp(op=ast.And(), values=parts), n))
+        # (A if c else None) is not None  ->  c ;  ... is None  ->  not c      (A is an object that is certainly not None)
+        if len(n.ops) == 1 and isinstance(n.ops[0], (ast.Is, ast.IsNot)) and isinstance(n.comparators[0], ast.Constant) and n.comparators[0].value is None \
+                and isinstance(n.left, ast.IfExp):
+            ie = n.left
+
+            def some(e):
+                return (isinstance(e, ast.Call) and isinstance(e.func, ast.Name) and e.func.id in ('slice', 'list', 'dict', 'tuple', 'set', 'range')) or \
+                    isinstance(e, (ast.List, ast.Tuple, ast.Dict, ast.Set)) or (isinstance(e, ast.Constant) and e.value is not None)
+
+            def none(e):
+                return isinstance(e, ast.Constant) and e.value is None
+            if some(ie.body) and none(ie.orelse) and _pure_expr(ie.body):
+                return ie.test if isinstance(n.ops[0], ast.IsNot) else self.visit(ast.copy_location(ast.UnaryOp(op=ast.Not(), operand=ie.test), n))
+            if none(ie.body) and some(ie.orelse) and _pure_expr(ie.orelse):
+                return ie.test if isinstance(n.ops[0], ast.Is) else self.visit(ast.copy_location(ast.UnaryOp(op=ast.Not(), operand=ie.test), n))
         # len(x) is a non-negative integer: len(x) > 0, 0 < len(x), len(x) >= 1  ==  len(x) != 0 ;  len(x) < 1, len(x) <= 0  ==  len(x) == 0
         if len(n.ops) == 1:
             a, b, op = n.left, n.comparators[0], n.ops[0]
@@ -191,6 +206,24 @@ class _E1(ast.NodeTransformer):
 
     def visit_Subscript(self, n):
         self.generic_visit(n)
+        # x[slice(a, b)]  ->  x[a:b]      (the builtin slice object is what the colon notation builds)
+
+        def as_slice(e):
+            if isinstance(e, ast.Call) and isinstance(e.func, ast.Name) and e.func.id == 'slice' and 1 <= len(e.args) <= 3 and not e.keywords:
+                def nn(x):
+                    return None if isinstance(x, ast.Constant) and x.value is None else x
+                a = list(e.args)
+                if len(a) == 1:
+                    lo, hi, stp = None, nn(a[0]), None
+                else:
+                    lo, hi, stp = nn(a[0]), nn(a[1]), nn(a[2]) if len(a) == 3 else None
+                return self.visit_Slice(ast.copy_location(ast.Slice(lower=lo, upper=hi, step=stp), e))
+            return None
+        if isinstance(n.slice, ast.Tuple):
+            if any(as_slice(e) is not None for e in n.slice.elts):
+                n.slice.elts = [as_slice(e) or e for e in n.slice.elts]
+        elif as_slice(n.slice) is not None:
+            n.slice = as_slice(n.slice)
         if isinstance(n.slice, ast.Constant) and type(n.slice.value) is int and n.slice.value == 0 and isinstance(n.value, ast.Call):
             call = n.value
             f = call.func
@@ -1631,6 +1664,36 @@ def _default_override(fn):
     return changed
 
 
+def _known_condition(fn):
+    """Inside `if T:` (T pure, its operands not stored to in the branch) a conditional expression on T reads as its true arm; inside the
+    else branch as its false arm."""
+    changed = [False]
+    for st in ast.walk(fn):
+        if not (isinstance(st, ast.If) and _pure_expr(st.test)):
+            continue
+        key = ast.dump(st.test)
+        free = {x.id for x in ast.walk(st.test) if isinstance(x, ast.Name)}
+        for branch, pick in ((st.body, 'body'), (st.orelse, 'orelse')):
+            if not branch:
+                continue
+            if not any(isinstance(x, ast.IfExp) and ast.dump(x.test) == key for b_ in branch for x in ast.walk(b_)):
+                continue
+            mut, stores = _mutated_names(ast.Module(body=branch, type_ignores=[]))
+            if free & (mut | set(stores)):
+                continue
+
+            class R(ast.NodeTransformer):
+                def visit_IfExp(self, n):
+                    self.generic_visit(n)
+                    if ast.dump(n.test) == key:
+                        changed[0] = True
+                        return getattr(n, pick)
+                    return n
+            for i, b_ in enumerate(branch):
+                branch[i] = R().visit(b_)
+    return changed[0]
+
+
 def _split_if(fn):
     """if c: a = A; b = B  else: b = B2      ->     if c: a = A;   if c: b = B else: b = B2
     Every statement of both branches is a plain assignment to one name or self-attribute, c is pure and reads nothing the branches store,
@@ -1773,6 +1836,39 @@ def _guard_continue(fn):
     return changed
 
 
+def _sink_increment(fn):
+    """In a while body:  ...; k += c; REST      ->      ...; REST[k := k + c]; k += c
+    when REST (the remaining statements of the body) are simple statements that read k but never store it, contain no continue /
+    break / return, and c is an integer literal."""
+    changed = False
+    for loop in ast.walk(fn):
+        if not isinstance(loop, ast.While):
+            continue
+        body = loop.body
+        for i, st in enumerate(body[:-1]):
+            if isinstance(st, ast.AugAssign) and isinstance(st.op, ast.Add) and isinstance(st.target, ast.Name) and isinstance(st.value, ast.Constant) \
+                    and type(st.value.value) is int:
+                k = st.target.id
+                rest = body[i + 1:]
+                if not all(isinstance(r, (ast.Assign, ast.AugAssign, ast.Expr)) for r in rest):
+                    continue
+                if any(isinstance(x, ast.Name) and x.id == k and isinstance(x.ctx, (ast.Store, ast.Del)) for r in rest for x in ast.walk(r)):
+                    continue
+                if any(isinstance(x, (ast.Lambda, ast.ListComp, ast.GeneratorExp, ast.SetComp, ast.DictComp)) for r in rest for x in ast.walk(r)):
+                    continue
+
+                class S(ast.NodeTransformer):
+                    def visit_Name(self, n):
+                        if n.id == k and isinstance(n.ctx, ast.Load):
+                            return ast.copy_location(ast.BinOp(left=ast.Name(id=k, ctx=ast.Load()), op=ast.Add(), right=ast.Constant(value=st.value.value)), n)
+                        return n
+                new_rest = [ast.fix_missing_locations(S().visit(r)) for r in rest]
+                body[i:] = new_rest + [st]
+                changed = True
+                break
+    return changed
+
+
 def _while_counter(fn):
     """k = A; while k < N: BODY; k += 1      ->     for k in range(A, N): BODY
     when A is an integer literal, N a length (len(x), x.size, x.shape[i], an integer literal) whose operands BODY does not touch, BODY
@@ -1789,6 +1885,11 @@ def _while_counter(fn):
         if isinstance(e, ast.Subscript) and isinstance(e.value, ast.Attribute) and e.value.attr == 'shape' and isinstance(e.slice, ast.Constant) \
                 and _pure_expr(e.value.value):
             return True
+        # integer arithmetic over names, attributes and integer literals (a count kept in a variable or an attribute)
+        if isinstance(e, (ast.Name, ast.Attribute)) and _pure_expr(e):
+            return True
+        if isinstance(e, ast.BinOp) and isinstance(e.op, (ast.Add, ast.Sub, ast.Mult, ast.FloorDiv)):
+            return is_length(e.left) and is_length(e.right)
         return False
 
     def own_continue(body):
@@ -1967,27 +2068,40 @@ def _getattr_default(fn):
 def _tail_return_dedup(fn):
     """if c: A; return E        (no else)            if c: A
        B                                      ->     else: B
-       return E                                      return E          (the two returns are the same expression)"""
-    changed = False
+       return E                                      return E          (the two returns are the same expression)
+    also when `return E` follows the enclosing if / else chain rather than B itself (B in tail position)."""
+    changed = [False]
+
+    def process(body, tail):
+        if body and isinstance(body[-1], ast.Return) and body[-1].value is not None:
+            own, end = ast.dump(body[-1].value), len(body) - 1
+        else:
+            own, end = tail, len(body)
+        if own is None:
+            return
+        for i in range(end):
+            st = body[i]
+            if isinstance(st, ast.If) and not st.orelse and st.body and isinstance(st.body[-1], ast.Return) and st.body[-1].value is not None \
+                    and ast.dump(st.body[-1].value) == own and (i + 1 < end or end < len(body)):
+                rest = body[i + 1:end]
+                st.body = st.body[:-1] or [ast.Pass()]
+                st.orelse = rest
+                del body[i + 1:end]
+                changed[0] = True
+                process(st.body, own)
+                process(st.orelse, own)
+                return
+        if end >= 1 and isinstance(body[end - 1], ast.If):
+            process(body[end - 1].body, own)
+            process(body[end - 1].orelse, own)
     for owner in ast.walk(fn):
         for fld in ('body', 'orelse', 'finalbody'):
             body = getattr(owner, fld, None)
             if not (isinstance(body, list) and len(body) >= 2 and isinstance(body[0], ast.stmt)) or isinstance(owner, ast.Lambda):
                 continue
-            last = body[-1]
-            if not (isinstance(last, ast.Return) and last.value is not None):
-                continue
-            for i, st in enumerate(body[:-1]):
-                if isinstance(st, ast.If) and not st.orelse and len(st.body) >= 1 and isinstance(st.body[-1], ast.Return) and st.body[-1].value is not None \
-                        and ast.dump(st.body[-1].value) == ast.dump(last.value):
-                    st.body = st.body[:-1] or [ast.Pass()]
-                    st.orelse = body[i + 1:-1] or []
-                    del body[i + 1:-1]
-                    if not st.orelse:
-                        pass
-                    changed = True
-                    break
-    return changed
+            if isinstance(body[-1], ast.Return) and body[-1].value is not None:
+                process(body, None)
+    return changed[0]
 
 
 def _return_ifexp(fn):
@@ -2108,11 +2222,13 @@ def normal_form(fn, callee_info=None, consts=None):
         _tail_return_dedup(c)
         _return_ifexp(c)
         _list_accumulation(c)
+        _known_condition(c)
         _split_if(c)
         _default_override(c)
         _ifexp_assign(c)
         _bool_ifexp(c)
         _guard_continue(c)
+        _sink_increment(c)
         _while_counter(c)
         _loop_to_comprehension(c)
         _unpack_to_subscripts(c)
